@@ -25,3 +25,36 @@ Theorem C16_summary_still_printed : forall w o n l p, 0 < n ->
   exists pre ran nf ne ns rest, ps_ev (repeat_loop w o n l p) = ps_ev p ++ pre ++ ESummary l ran nf ne ns :: rest.
 Proof. exact repeat_loop_summary. Qed.
 Print Assumptions C16_summary_still_printed.
+
+(* ------------------------------------------------------------------------------------------------------------
+   The whole run under -x, for EVERY world, --repeat count, fault script and process layout.  `stop_ok` scans a
+   process's events and is false iff a test starts or a layer set-up is attempted after a bad outcome (failing
+   or erroring test or subtest, unexpected success, exception out of a layer's setUp) in that process;
+   `seen_bad` says the process had a bad outcome. *)
+From ZT Require Import LayersFacts RunStop.
+
+Theorem C16_whole_run : forall w o, o_x o = true ->
+  let r := run w o in
+  stop_ok (r_parent r) = true /\
+  (forall c, In c (r_children r) -> stop_ok (c_ev c) = true) /\
+  (* once the parent knows a bad outcome no layer subprocess is started; after a subprocess with one, no other *)
+  (seen_bad (r_parent r) = true -> r_children r = []) /\
+  (forall a c b, r_children r = a ++ c :: b -> seen_bad (c_ev c) = true -> b = []).
+Proof. exact run_stop. Qed.
+Print Assumptions C16_whole_run.
+
+Theorem C16_verdict_failed : forall w o,
+  wf (lw w) -> (forall t, In t (tests w) -> t_layer t < nlayers (lw w)) ->
+  (seen_bad (r_parent (run w o)) = true \/ exists c, In c (r_children (run w o)) /\ seen_bad (c_ev c) = true) ->
+  r_failed (run w o) = true.
+Proof. exact bad_outcome_fails. Qed.
+Print Assumptions C16_verdict_failed.
+
+(* … and everything that was set up is torn down again (C01's whole-run statement, which holds under -x too) *)
+From ZT Require Import RunInv.
+Theorem C16_still_torn_down : forall w, wf (lw w) -> forall o,
+  (forall t, In t (tests w) -> t_layer t < nlayers (lw w)) ->
+  c01_trace_ok w (r_parent (run w o)) = true /\
+  forall c, In c (r_children (run w o)) -> c01_trace_ok w (c_ev c) = true.
+Proof. intros w Hwf o Ht. split; [apply c01_parent | apply c01_children]; assumption. Qed.
+Print Assumptions C16_still_torn_down.
